@@ -130,8 +130,9 @@ Proof. split; reflexivity. Qed.
    waiters with fewer slots than threads allowed), instantiated with WriteCoalescingCore and
    FsyncCoalescingCore of sst/src/log.rs and glued as `append` glues them (the value returned by
    write_cq.do_work is the input of fsync_cq.do_work; a thread starts its next append only after
-   the previous one returned).  A schedule is ANY list of actions (thread t of queue W / queue F
-   takes its next step with notify choice c | wakes up spuriously); a blocked thread's action is a
+   the previous one returned; once the log is poisoned an append may be refused before it reaches a
+   queue).  A schedule is ANY list of actions (thread t of queue W / queue F takes its next step with
+   notify choice c | wakes up spuriously | thread t's append is refused); a blocked thread's action is a
    no-op, so "for all sched" is "for every interleaving".  nW, nF: ring sizes; oracle: the outcomes
    of the fdatasync calls (any list); progsW: the batches each thread appends, one call after the
    other.  No atomicity of the queue is assumed: the queue-level facts (mutual exclusion of
@@ -191,6 +192,23 @@ Proof.
   intros bits crc rollover HB progsW Hok nW nF oracle sched k HnW HnF Hrun.
   destruct (reach_KInv bits crc rollover HB progsW Hok nW nF oracle sched k HnW HnF Hrun) as (pF & HK).
   exact (wl_sync_order bits crc rollover progsW pF k HK).
+Qed.
+
+(* Whatever the schedule: the `poison` flag (read at the top of append since b7cac52) is set only
+   after some call was answered with an error — a failed fdatasync or a failed append of the write
+   core — and an append is refused (ARefuse: Err(log-poisoned), nothing reaches a queue or the file)
+   only when it is set.  So a fault-free run refuses nothing, and the theorems about the calls that
+   do go on to the queues are not weakened by the refusals. *)
+Theorem C12_conc_refused_only_after_error : forall bits crc rollover, HEADER_MAX_SIZE < 2 ^ bits ->
+  forall progsW, batches_ok progsW ->
+  forall nW nF oracle sched k, (0 < nW)%nat -> (0 < nF)%nat ->
+  crun bits crc rollover (kinit nW nF oracle progsW) sched = Ok k ->
+  (k_refused k <> [] -> k_poison k = true) /\
+  (k_poison k = true ->
+     cf_failed (cF k) = true \/ Exists (fun e => lw_res e <> WOk) (cw_log (cW k))).
+Proof.
+  intros bits crc rollover HB progsW Hok nW nF oracle sched k HnW HnF Hrun.
+  exact (reach_PInv bits crc rollover HB progsW Hok nW nF oracle sched k HnW HnF Hrun).
 Qed.
 
 (* Whatever the schedule: the file is the sequential log (C12_roundtrip applies) of the batches
